@@ -148,8 +148,8 @@ Definition lmap (l : leaf A) : leaf B :=
   | LUnflatten wr perm cv => LUnflatten (hv wr) perm (h cv)
   | LProj ws pw i => LProj (hm ws) (hv pw) i
   | LProjAdj ws pw i => LProjAdj (hm ws) (hv pw) i
-  | LProjM ws pw idxs => LProjM (hm ws) (hv pw) idxs
-  | LProjMAdj ws pw idxs => LProjMAdj (hm ws) (hv pw) idxs
+  | LProjM ws pw idxs acc => LProjM (hm ws) (hv pw) idxs acc
+  | LProjMAdj ws pw idxs acc => LProjMAdj (hm ws) (hv pw) idxs acc
   | LPtInner wb pw g ow => LPtInner (hv wb) (hv pw) (hm g) (hv ow)
   | LPtInnerAdj wb pw g ow => LPtInnerAdj (hv wb) (hv pw) (hm g) (hv ow)
   | LResize wd wr rm i o f => LResize (hv wd) (hv wr) rm i o f
@@ -224,11 +224,15 @@ Lemma h_block (ws : list (list A)) i x : hv (block ws i x) = block (hm ws) i (hv
 Proof. unfold block. rewrite <- hm_nth, map_length, h_offset, skipn_map, firstn_map. reflexivity. Qed.
 Lemma h_set_block (ws : list (list A)) i b out : hv (set_block ws i b out) = set_block (hm ws) i (hv b) (hv out).
 Proof. unfold set_block. rewrite !map_app, <- hm_nth, map_length, h_offset, skipn_map, firstn_map. reflexivity. Qed.
-Lemma h_put_blocks (ws : list (list A)) idxs : forall y out,
-  hv (put_blocks ws idxs y out) = put_blocks (hm ws) idxs (hv y) (hv out).
+Lemma h_add_block (ws : list (list A)) i b out : hv (add_block ws i b out) = add_block (hm ws) i (hv b) (hv out).
+Proof.
+  unfold add_block. rewrite !map_app, h_vadd, h_block, <- hm_nth, map_length, h_offset, skipn_map, firstn_map. reflexivity.
+Qed.
+Lemma h_put_blocks acc (ws : list (list A)) idxs : forall y out,
+  hv (put_blocks acc ws idxs y out) = put_blocks acc (hm ws) idxs (hv y) (hv out).
 Proof.
   induction idxs as [|i r IH]; intros y out; [reflexivity|]. cbn [put_blocks].
-  rewrite IH, h_set_block, <- hm_nth, map_length, skipn_map, firstn_map. reflexivity.
+  rewrite IH. destruct acc; rewrite ?h_set_block, ?h_add_block, <- hm_nth, map_length, skipn_map, firstn_map; reflexivity.
 Qed.
 
 Theorem eval_leaf_transfer (l : leaf A) (x : list A) : algebraic l -> divs_ok l ->
